@@ -275,6 +275,111 @@ func largeIndexRebuild(backend string, flush int) string {
 	})
 }
 
+// chunkedRollback: the rollback and the index rebuild that follows work through the store in chunks of
+// 1024 keys; here both cross several chunk boundaries: 2300 keys in version 1, version 2 rewrites 1500 of
+// them, removes some and creates keys that sort first, in the middle and last; then LoadVersionForOverwriting(1).
+// Afterwards every read path (index on) shows version 1, the erased keys are absent, the store holds
+// exactly the node entries it held before version 2, and the same holds after a restart.
+func chunkedRollback(backend string, flush int) string {
+	db, cleanup := scenarioDB(backend)
+	defer cleanup()
+	count := func() (nodes, fast int) {
+		itr, err := db.Iterator(nil, nil)
+		if err != nil {
+			return -1, -1
+		}
+		defer itr.Close()
+		for ; itr.Valid(); itr.Next() {
+			switch itr.Key()[0] {
+			case 's':
+				nodes++
+			case 'f':
+				fast++
+			}
+		}
+		return
+	}
+	t := iavl.NewMutableTree(db, 100, false, iavl.NewNopLogger(), iavl.FlushThresholdOption(flush))
+	if _, err := t.Load(); err != nil {
+		return err.Error()
+	}
+	const n = 2300
+	for i := 0; i < n; i++ {
+		_, _ = t.Set([]byte(fmt.Sprintf("key-%05d", i)), []byte(fmt.Sprintf("a%d", i)))
+	}
+	h1, _, err := t.SaveVersion()
+	if err != nil {
+		return err.Error()
+	}
+	nodes1, fast1 := count()
+	extra := []string{"aaa-first", "key-01000-mid", "key-02299-x", "zzz-last-1", "zzz-last-2"}
+	for i := 0; i < 1500; i++ {
+		_, _ = t.Set([]byte(fmt.Sprintf("key-%05d", i)), []byte(fmt.Sprintf("b%d", i)))
+	}
+	for i := 2000; i < 2050; i++ {
+		_, _, _ = t.Remove([]byte(fmt.Sprintf("key-%05d", i)))
+	}
+	for _, k := range extra {
+		_, _ = t.Set([]byte(k), []byte("erased"))
+	}
+	if _, _, err := t.SaveVersion(); err != nil {
+		return err.Error()
+	}
+	return watchdog(60*time.Second, func() string {
+		if err := t.LoadVersionForOverwriting(1); err != nil {
+			return "LoadVersionForOverwriting(1): " + err.Error()
+		}
+		check := func(t *iavl.MutableTree, when string) string {
+			if !bytes.Equal(t.Hash(), h1) {
+				return when + ": hash of version 1 changed"
+			}
+			for _, k := range extra {
+				if v, err := t.Get([]byte(k)); err != nil || v != nil {
+					return fmt.Sprintf("%s: Get(%s) of a key the erased version had created = %s, %v", when, k, v, err)
+				}
+			}
+			for _, i := range []int{0, 1, 1023, 1024, 1025, 1499, 1500, 2000, 2049, 2299} {
+				want := fmt.Sprintf("a%d", i)
+				if v, err := t.Get([]byte(fmt.Sprintf("key-%05d", i))); err != nil || string(v) != want {
+					return fmt.Sprintf("%s: Get(key-%05d) = %s, %v; version 1 has %s", when, i, v, err, want)
+				}
+			}
+			cnt := 0
+			itr, err := t.Iterator(nil, nil, true)
+			if err != nil {
+				return when + ": Iterator: " + err.Error()
+			}
+			for ; itr.Valid(); itr.Next() {
+				want := fmt.Sprintf("a%d", cnt)
+				if cnt < n && (string(itr.Key()) != fmt.Sprintf("key-%05d", cnt) || string(itr.Value()) != want) {
+					itr.Close()
+					return fmt.Sprintf("%s: iteration pair %d is %s=%s, version 1 has key-%05d=%s", when, cnt, itr.Key(), itr.Value(), cnt, want)
+				}
+				cnt++
+			}
+			err = itr.Error()
+			itr.Close()
+			if err != nil || cnt != n {
+				return fmt.Sprintf("%s: iteration yields %d pairs, version 1 has %d (%v)", when, cnt, n, err)
+			}
+			return ""
+		}
+		if msg := check(t, "after the rollback"); msg != "" {
+			return msg
+		}
+		if nodes, fast := count(); nodes != nodes1 || fast != fast1 {
+			return fmt.Sprintf("after the rollback the store holds %d node entries and %d index entries, before version 2 it held %d and %d", nodes, fast, nodes1, fast1)
+		}
+		_ = t.Close()
+		t2 := iavl.NewMutableTree(db, 0, false, iavl.NewNopLogger(), iavl.FlushThresholdOption(flush))
+		if v, err := t2.Load(); err != nil || v != 1 {
+			return fmt.Sprintf("Load() after the rollback and a restart = %d, %v", v, err)
+		}
+		defer t2.Close()
+		return check(t2, "after the rollback and a restart")
+	})
+}
+
 type scenarioResult struct {
 	Name string `json:"scenario"`
 	Msg  string `json:"observed"`
@@ -305,6 +410,8 @@ var allScenarios = map[string]func() string{
 	"large-rollback/mem/flush150/index-off":   func() string { return largeRollback("mem", 150, false) },
 	"large-rollback/level/flush150/index-on":  func() string { return largeRollback("level", 150, true) },
 	"large-rollback/mem/flush100000/index-on": func() string { return largeRollback("mem", 100000, true) },
+	"chunked-rollback/mem/flush150":           func() string { return chunkedRollback("mem", 150) },
+	"chunked-rollback/level/flush100000":      func() string { return chunkedRollback("level", 100000) },
 	"large-index-rebuild/mem/flush150":        func() string { return largeIndexRebuild("mem", 150) },
 	"large-index-rebuild/level/flush150":      func() string { return largeIndexRebuild("level", 150) },
 	"multi-batch-import/index-on/plain":       func() string { return multiBatchImport(true, false, false) },
